@@ -37,20 +37,27 @@ package formatter
 //@   loop 2 invariant forall i2 int, j int :: {transactions[i2].Postings[j]} 0 <= i2 && i2 < i && 0 <= j && j < len(transactions[i2].Postings) ==> maxLen >= dispLen(transactions[i2].Postings[j])
 //@   loop 2 invariant forall j int :: {transactions[i].Postings[j]} 0 <= j && j <= rangeindex ==> maxLen >= dispLen(transactions[i].Postings[j])
 
-//@ trusted formatPostingWithOpts
-//@   effects none
+// The rendered posting line: the configured indent first; when the posting has an amount, at least two blanks separate
+// it from the account (so the amount is read back as an amount), and no padding is ever negative.
+//@ pred AcctEnd(po, indent, n) := n == len(indent) + ite(po.Status == 1 || po.Status == 2, 2, 0) + ite(po.Virtual == 1 || po.Virtual == 2, 2, 0) + len(po.Account.Name)
+//@ func formatPostingWithOpts
+//@   props C04 C05 C06
+//@   requires posting != nil && FormatsOK(commodityFormats)
+//@   ensures [C05:indent_first] hasprefix(result, indent)
+//@   ensures [C04,C05:two_blanks] posting.Amount != nil ==> (forall n int :: {result[n]} AcctEnd(posting, indent, n) ==> len(result) >= n + 2 && result[n] == ' ' && result[n + 1] == ' ')
 //@ trusted CalculateAlignmentWithGlobal
 //@   effects none
 //@   ensures result.AccountCol == accountCol
+// Decimal places of a display format are counted from the format text: small and non-negative (ParseNumberFormat).
 //@ trusted extractCommodityFormats
-//@   ensures result != nil && fresh(result)
+//@   ensures result != nil && fresh(result) && FormatsOK(result)
 
 //@ pred PostingLinesOK(tx) := forall k int :: {tx.Postings[k]} 0 <= k && k < len(tx.Postings) ==> tx.Postings[k].Range.Start.Line >= 1 && tx.Postings[k].Range.Start.Line <= 4294967295
 
 // One edit per posting, in posting order: the whole posting line (from character 0 to its UTF-16 length) is rewritten.
 //@ func formatTransactionWithOpts
 //@   props C05 C04 C06
-//@   requires [ptrs] tx != nil && mapper != nil
+//@   requires [ptrs] tx != nil && mapper != nil && FormatsOK(commodityFormats)
 //@   requires [indent] opts.IndentSize >= 0
 //@   requires [lines] PostingLinesOK(tx)
 //@   requires [small] len(mapper.content) < 4294967296
@@ -85,11 +92,11 @@ package formatter
 // Every edit is either the rewrite of a posting line or a pure deletion on a line that is not a posting line.
 //@ func FormatDocumentWithOptions
 //@   props C04 C05 C06
-//@   requires journal != nil && len(content) < 4294967295 && JournalLinesOK(journal)
+//@   requires journal != nil && len(content) < 4294967295 && JournalLinesOK(journal) && FormatsOK(commodityFormats)
 //@   requires [C04:journal_of_content] parsedFrom(journal) == content
 //@   ensures [C04:nonposting_only_trimmed] forall e int :: 0 <= e && e < len(result) ==> postingLines[result[e].Range.Start.Line] || result[e].NewText == ""
 //@   ensures [C05:single_line] forall e int :: 0 <= e && e < len(result) ==> result[e].Range.Start.Line == result[e].Range.End.Line
-//@   loop 1 invariant 0 - 1 <= rangeindex && rangeindex <= len(journal.Transactions) - 1 && MapOK(mapper, content) && postingLines != nil && fresh(postingLines) && opts.IndentSize > 0
+//@   loop 1 invariant 0 - 1 <= rangeindex && rangeindex <= len(journal.Transactions) - 1 && MapOK(mapper, content) && postingLines != nil && fresh(postingLines) && opts.IndentSize > 0 && FormatsOK(commodityFormats)
 //@   loop 1 invariant forall e int :: 0 <= e && e < len(edits) ==> postingLines[edits[e].Range.Start.Line] && edits[e].Range.Start.Line == edits[e].Range.End.Line
 //@   loop 2 invariant 0 <= i && i < len(journal.Transactions) && 0 - 1 <= rangeindex && rangeindex <= len(journal.Transactions[i].Postings) - 1 && MapOK(mapper, content) && postingLines != nil && fresh(postingLines) && opts.IndentSize > 0
 //@   loop 2 invariant forall e int :: 0 <= e && e < len(edits) ==> postingLines[edits[e].Range.Start.Line] && edits[e].Range.Start.Line == edits[e].Range.End.Line
